@@ -30,7 +30,7 @@ pub enum Op {
     /// delete the case's hot file if it exists
     HotDelete,
     /// (dir, slot, size class): write a large file of pseudo-random content (sizes around
-    /// the I/O buffer boundaries 64 KiB and 2 MiB, up to 5 MiB)
+    /// the I/O buffer boundaries 64 KiB and 2 MiB, up to 2 MiB + 70 KB)
     BigWrite(u16, u16, u16),
     /// change only the last bytes of a file (content it never had), keeping the head
     TailEdit(u16),
@@ -47,7 +47,7 @@ pub const BIG_SIZES: [usize; 9] = [
     (2 << 20) - 1,
     2 << 20,
     (2 << 20) + 1,
-    5 << 20,
+    (2 << 20) + 70_000,
 ];
 
 fn pseudo_random(seed: u64, len: usize) -> Vec<u8> {
